@@ -74,6 +74,11 @@ func (b *block) seek(cmp comparer.Comparer, rstart, rlimit int, key []byte) (ind
 		// The smallest key is greater-than key sought.
 		index = rstart
 	}
+	if index >= b.restartsLen {
+		// rstart lies past the last restart point (a slice that starts after
+		// every entry of the block): there is no restart entry to read.
+		return index, b.restartsOffset, nil
+	}
 	offset = int(binary.LittleEndian.Uint32(b.data[b.restartsOffset+4*index:]))
 	return
 }
